@@ -3,6 +3,7 @@ import Sentinel.Lemmas.LeapArrayRaceTerm
 import Sentinel.Lemmas.LeapArrayRaceOwn
 import Sentinel.Lemmas.LeapArrayRaceStarted
 import Sentinel.Lemmas.LeapArrayRaceRead
+import Sentinel.Lemmas.LeapArrayRaceDrain
 /-!
 # C09 — Sliding-window counters stay sound under concurrent writers and rollover
 (property theorems only; the invariants live in `Sentinel/Lemmas/LeapArrayRace*.lean`)
@@ -242,6 +243,46 @@ theorem progress_possible (c : Cfg) (hm : MutexInv c) (hnf : c.allFinished = fal
     obtain ⟨t, ht, hnft⟩ := this
     obtain ⟨i, hi⟩ := List.getElem?_of_mem ht
     exact ⟨i, t, hi, hnft, stepTh_meas c.sh c.clock t hnft (fun _ _ _ => hl')⟩
+
+/-! ### global termination: the scheduler's drain and fair schedules -/
+
+/-- **termination under the round-robin drain** (the scheduler the harness uses: thread ids 0,1,2,…,0,1,2,… one step
+    each, finished threads skipped) — from every configuration satisfying the lock discipline the drain finishes every
+    thread within `psi c` rounds, `psi` being the explicit potential of `Lemmas/LeapArrayRaceDrain.lean`
+    (`(2K+4)·Σ base + Σ rho`): each round lowers it, because the round steps the lock holder if the lock is held
+    and otherwise its first unfinished thread meets a free lock. -/
+theorem drain_terminates_from (c : Cfg) (hm : MutexInv c) : (drain (c.psi + 1) c).allFinished = true :=
+  drain_finishes c.psi c hm (le_refl _)
+
+theorem psi_fresh_le (n L Iv t0 clock : Nat) (progs : List (List OpSpec)) :
+    (fresh n L Iv t0 clock progs).psi ≤ (2 * progs.length + 4) * ((progs.map List.length).sum * (3 * n + 16)) := by
+  unfold Cfg.psi fresh
+  simp only [List.length_map]
+  rw [sumRho_fresh, Nat.add_zero]
+  exact Nat.mul_le_mul_left _ (sumBase_fresh_le _ progs)
+
+/-- **every recorder and reader terminates** — for every geometry, every set of thread programs and every
+    configuration reachable by any finite schedule `s`, the round-robin drain finishes every thread within
+    `(2K+4) · #operations · (3n+16)` rounds (`K` threads, `n` buckets): an explicit bound that depends on the
+    programs only, not on the schedule that led to the configuration. -/
+theorem drain_terminates (n L Iv t0 clock : Nat) (progs : List (List OpSpec)) (s : List Entry) :
+    (drain ((2 * progs.length + 4) * ((progs.map List.length).sum * (3 * n + 16)) + 1)
+      (run (fresh n L Iv t0 clock progs) s)).allFinished = true := by
+  apply drain_finishes
+  · exact reset_section_exclusive n L Iv t0 clock progs s
+  · exact le_trans (run_psi_le _ s) (psi_fresh_le n L Iv t0 clock progs)
+
+/-- **fair schedules** — from every reachable configuration, in every infinite schedule (thread steps and clock
+    ticks) in which each thread that is unfinished at some moment is scheduled at that moment or later, there is a
+    moment at which every thread has finished. -/
+theorem fair_terminates (n L Iv t0 clock : Nat) (progs : List (List OpSpec)) (s : List Entry) (σ : Nat → Entry)
+    (hfair : Fair (run (fresh n L Iv t0 clock progs) s) σ) :
+    ∃ k, (runTo (run (fresh n L Iv t0 clock progs) s) σ k).allFinished = true :=
+  fair_finishes _ σ (reset_section_exclusive n L Iv t0 clock progs s) hfair
+
+/-- non-vacuity: two recorders contending for the reset of the same slot, drained round-robin from the start -/
+example : (drain 40 (nextRound (run (fresh 2 500 1000 1000 1000 [[.add 0 5]]) [.step 0, .step 0, .step 0]) 2000
+    [[.add 0 1], [.add 0 2]])).allFinished = true := by decide
 
 /-! ## data of an expired bucket is never visible — FALSE at this granularity (known finding) -/
 
